@@ -24,6 +24,7 @@ func init() {
 var c19Names = []string{"a", "b", "c", "d", "e", "ab", "Z", "é", "a b", "0", "a\"", "a#", "x<y", "x=y", "a\\b", "\u2028"}
 
 type c19gen struct {
+	arena   []string // PropertyOrder / Required lists are sub-slices of one array: each has spare capacity that runs into the next list
 	c       *Ctx
 	hasDup  bool
 	rich    bool // some level has >=3 properties, >=1 listed, >=2 unlisted
@@ -74,6 +75,24 @@ func (g *c19gen) order(props map[string]*jsonschema.Schema) []string {
 	}
 }
 
+// own returns a copy of xs carved out of the shared arena (len(xs) elements, capacity up to the
+// end of the arena).
+func (g *c19gen) own(xs []string) []string {
+	if xs == nil {
+		return nil
+	}
+	if g.arena == nil {
+		g.arena = make([]string, 0, 192)
+	}
+	if len(g.arena)+len(xs)+1 > cap(g.arena) {
+		return xs
+	}
+	start := len(g.arena)
+	g.arena = append(g.arena, xs...)
+	g.arena = append(g.arena, "<guard>")
+	return g.arena[start : start+len(xs)]
+}
+
 func (g *c19gen) schema(depth int) *jsonschema.Schema {
 	c := g.c
 	s := &jsonschema.Schema{}
@@ -81,7 +100,7 @@ func (g *c19gen) schema(depth int) *jsonschema.Schema {
 	case 0:
 		s.Type = pick(c, typePool)
 	case 1:
-		s.Types = []string{"null", "string"}
+		s.Types = g.own([]string{"null", "string"})
 	case 2:
 		s.Title = pick(c, stringPool)
 	}
@@ -100,7 +119,10 @@ func (g *c19gen) schema(depth int) *jsonschema.Schema {
 			}
 		}
 		noDupBudget := g.hasDup
-		s.PropertyOrder = g.order(s.Properties)
+		s.PropertyOrder = g.own(g.order(s.Properties))
+		if c.W(4) == 0 {
+			s.Required = g.own(subset(c, c19Names, 1, 2))
+		}
 		if noDupBudget && g.hasDup {
 			// keep at most one duplicate list per tree most of the time; still legal to have more
 		}
